@@ -191,6 +191,43 @@ theorem accepted_is_leader_shred_partial (env : Env) (L : env.Laws) (v : Variant
 
 /-! ### the blockstore's equivocation gate -/
 
+/-- a shred that passes the gate leaves its commitment in the cache and the leader unflagged -/
+theorem gate_pass_caches (g : Gate) (a : VShred) (hg : g.misbehaved = false) (hpass : (g.add a).2 = .pass) :
+    (g.add a).1.cached a.shred.header.sliceIdx = some a.commitment ∧ (g.add a).1.misbehaved = false := by
+  unfold Gate.add at hpass ⊢
+  simp only [hg, Bool.false_eq_true, if_false] at hpass ⊢
+  cases hc : g.cached a.shred.header.sliceIdx with
+  | some c =>
+    simp only [hc] at hpass ⊢
+    by_cases hca : c = a.commitment
+    · subst hca
+      simp only [ne_eq, not_true_eq_false, if_false] at hpass ⊢
+      cases hl : g.lastSlice with
+      | none =>
+        cases hb : a.shred.header.isLast with
+        | false => simp_all [Gate.cached]
+        | true =>
+          cases hany : g.cache.any (fun e => decide (e.1 > a.shred.header.sliceIdx)) with
+          | true => simp [hl, hb, hany] at hpass
+          | false => simp_all [Gate.cached]
+      | some l =>
+        simp only [hl] at hpass ⊢
+        split at hpass <;> simp_all [Gate.cached]
+    · simp [hca] at hpass
+  | none =>
+    simp only [hc] at hpass ⊢
+    cases hl : g.lastSlice with
+    | none =>
+      cases hb : a.shred.header.isLast with
+      | false => simp_all [Gate.cached]
+      | true =>
+        cases hany : ((a.shred.header.sliceIdx, a.commitment) :: g.cache).any (fun e => decide (e.1 > a.shred.header.sliceIdx)) with
+        | true => simp [hl, hb, hany] at hpass
+        | false => simp [hl, hb, hany, hg, Gate.cached]
+    | some l =>
+      simp only [hl] at hpass ⊢
+      split at hpass <;> simp_all [Gate.cached]
+
 /-- **Two different commitments for one slot and slice are reported in both arrival orders**: whichever of two
     validated shreds with the same slice index and different commitments reaches an unflagged block data first,
     the other one is answered with `Equivocation` and the leader is flagged. -/
@@ -198,44 +235,27 @@ theorem gate_conflict_reported (g : Gate) (a b : VShred) (hg : g.misbehaved = fa
     (hidx : a.shred.header.sliceIdx = b.shred.header.sliceIdx) (hne : a.commitment ≠ b.commitment)
     (hpass : (g.add a).2 = .pass) :
     ((g.add a).1.add b).2 = .equivocation ∧ (((g.add a).1.add b).1).misbehaved = true := by
-  -- after `a` passed, the cache holds a commitment for the slice that equals `a`'s
-  have hcached : (g.add a).1.cached a.shred.header.sliceIdx = some a.commitment ∧ (g.add a).1.misbehaved = false := by
-    unfold Gate.add at hpass ⊢
-    simp only [hg, Bool.false_eq_true, if_false] at hpass ⊢
-    cases hc : g.cached a.shred.header.sliceIdx with
-    | some c =>
-      simp only [hc] at hpass ⊢
-      by_cases hca : c = a.commitment
-      · subst hca
-        simp only [ne_eq, not_true_eq_false, if_false] at hpass ⊢
-        cases hl : g.lastSlice with
-        | none => simp only [hl] at hpass ⊢; split <;> simp_all [Gate.cached]
-        | some l =>
-          simp only [hl] at hpass ⊢
-          split at hpass <;> simp_all [Gate.cached]
-      · simp [hca] at hpass
-    | none =>
-      simp only [hc] at hpass ⊢
-      cases hl : g.lastSlice with
-      | none => simp only [hl] at hpass ⊢; split <;> simp_all [Gate.cached]
-      | some l =>
-        simp only [hl] at hpass ⊢
-        split at hpass <;> simp_all [Gate.cached]
-  obtain ⟨h1, h2⟩ := hcached
+  obtain ⟨h1, h2⟩ := gate_pass_caches g a hg hpass
   generalize (g.add a).1 = g' at *
   unfold Gate.add
   rw [hidx] at h1
   simp [h2, h1, hne]
 
-/-- the gate invariant under shreds of one consistent block: commitments given by `C`, last slice `last` -/
+/-- the gate invariant under shreds of one consistent block: commitments given by `C`, last slice `last`;
+    (since the D2 fix) no cached slice index lies beyond the block's last slice -/
 def Gate.Consistent (C : Nat → Commitment) (last : Option Nat) (g : Gate) : Prop :=
-  g.misbehaved = false ∧ (∀ p ∈ g.cache, p.2 = C p.1) ∧ (g.lastSlice = none ∨ g.lastSlice = last)
+  g.misbehaved = false ∧ (∀ p ∈ g.cache, p.2 = C p.1) ∧ (g.lastSlice = none ∨ g.lastSlice = last) ∧
+  (∀ p ∈ g.cache, ∀ l, last = some l → p.1 ≤ l)
 
 /-- a validated shred of a block whose slices have commitments `C` and whose last slice is `last` -/
 def VShred.FromBlock (C : Nat → Commitment) (last : Option Nat) (v : VShred) : Prop :=
   v.commitment = C v.shred.header.sliceIdx ∧
   (v.shred.header.isLast = true ↔ last = some v.shred.header.sliceIdx) ∧
   (∀ l, last = some l → v.shred.header.sliceIdx ≤ l)
+
+/-- the empty gate is consistent with every block (the induction starts here) -/
+theorem gate_empty_consistent (C : Nat → Commitment) (last : Option Nat) : ({} : Gate).Consistent C last :=
+  by unfold Gate.Consistent; simp
 
 /-- **A correct leader is never flagged by the gate** (`honest_never_flagged`, gate part): no sequence of
     validated shreds that all belong to one block — one commitment per slice index, the last flag exactly on
@@ -245,7 +265,7 @@ def VShred.FromBlock (C : Nat → Commitment) (last : Option Nat) (v : VShred) :
 theorem gate_honest_never_flagged_partial (C : Nat → Commitment) (last : Option Nat) (g : Gate) (v : VShred)
     (hg : g.Consistent C last) (hv : v.FromBlock C last) :
     (g.add v).2 = .pass ∧ (g.add v).1.Consistent C last := by
-  obtain ⟨hm, hcache, hlast⟩ := hg
+  obtain ⟨hm, hcache, hlast, hbound⟩ := hg
   obtain ⟨hc, hl1, hl2⟩ := hv
   have hfind : ∀ c, g.cached v.shred.header.sliceIdx = some c → c = v.commitment := by
     intro c h
@@ -279,6 +299,23 @@ theorem gate_honest_never_flagged_partial (C : Nat → Commitment) (last : Optio
     rcases List.mem_cons.mp hp with rfl | hp
     · exact hc
     · exact hcache p hp
+  have hbound' : ∀ p ∈ (v.shred.header.sliceIdx, v.commitment) :: g.cache, ∀ l, last = some l → p.1 ≤ l := by
+    intro p hp l hl
+    rcases List.mem_cons.mp hp with rfl | hp
+    · exact hl2 l hl
+    · exact hbound p hp l hl
+  -- when the shred declares the last slice, nothing cached lies beyond it
+  have hnobeyond : v.shred.header.isLast = true →
+      g.cache.any (fun e => decide (e.1 > v.shred.header.sliceIdx)) = false := by
+    intro hb
+    rw [List.any_eq_false]
+    intro p hp
+    have := hbound p hp _ (hl1.mp hb)
+    simp; omega
+  have hnobeyond' : v.shred.header.isLast = true →
+      ((v.shred.header.sliceIdx, v.commitment) :: g.cache).any (fun e => decide (e.1 > v.shred.header.sliceIdx)) = false := by
+    intro hb
+    rw [List.any_cons, hnobeyond hb]; simp
   unfold Gate.Consistent Gate.add
   simp only [hm, Bool.false_eq_true, if_false]
   cases hcd : g.cached v.shred.header.sliceIdx with
@@ -288,20 +325,49 @@ theorem gate_honest_never_flagged_partial (C : Nat → Commitment) (last : Optio
     cases hgl : g.lastSlice with
     | none =>
       cases hb : v.shred.header.isLast with
-      | true => simp [hm, hgl, hb, hlastnew hb]; exact fun a b h => hcache (a, b) h
-      | false => simp [hm, hgl, hb]; exact fun a b h => hcache (a, b) h
+      | true =>
+        have := hnobeyond hb
+        simp [this, hlastnew hb]
+        exact ⟨fun a b h => hcache (a, b) h, fun a b h l hl => hbound (a, b) h l hl⟩
+      | false =>
+        simp [hm, hgl]
+        exact ⟨fun a b h => hcache (a, b) h, fun a b h l hl => hbound (a, b) h l hl⟩
     | some l =>
       have := hlastok l hgl
-      simp [hm, hgl, this] ; exact ⟨fun a b h => hcache (a, b) h, by simpa [hgl] using hlast⟩
+      simp [hm, hgl, this]
+      exact ⟨fun a b h => hcache (a, b) h, by simpa [hgl] using hlast, fun a b h l hl => hbound (a, b) h l hl⟩
   | none =>
     cases hgl : g.lastSlice with
     | none =>
       cases hb : v.shred.header.isLast with
-      | true => simp [hm, hgl, hb, hlastnew hb]; exact ⟨hc, fun a b h => hcache (a, b) h⟩
-      | false => simp [hm, hgl, hb]; exact ⟨hc, fun a b h => hcache (a, b) h⟩
+      | true =>
+        have := hnobeyond' hb
+        simp [this, hlastnew hb]
+        exact ⟨⟨hc, fun a b h => hcache (a, b) h⟩, hl2, fun a b h l hl => hbound (a, b) h l hl⟩
+      | false =>
+        simp [hm, hgl]
+        exact ⟨⟨hc, fun a b h => hcache (a, b) h⟩, hl2, fun a b h l hl => hbound (a, b) h l hl⟩
     | some l =>
       have := hlastok l hgl
-      simp [hm, hgl, this]; exact ⟨⟨hc, fun a b h => hcache (a, b) h⟩, by simpa [hgl] using hlast⟩
+      simp [hm, hgl, this]
+      exact ⟨⟨hc, fun a b h => hcache (a, b) h⟩, by simpa [hgl] using hlast, hl2, fun a b h l hl => hbound (a, b) h l hl⟩
+
+/-- **The node reports a conflicting signed commitment** (after the D16 `fix:`): when the blockstore already
+    caches a commitment for the slice and a shred arrives that the leader key validly signed for a *different*
+    commitment of that slot and slice, `handle_disseminator_shred` flags the leader (the snapshot dropped the
+    `Equivocation` verdict of `try_new` silently, so at node level the conflict was never reported). -/
+theorem node_conflict_reported (env : Env) (g : Gate) (s : Shred) (pk : Nat) (c : Commitment)
+    (hc : g.cached s.header.sliceIdx = some c) (hne : s.claimed env ≠ c) (hsig : s.sig = .signed pk (s.claimed env)) :
+    (g.nodeHandle env s pk).misbehaved = true := by
+  unfold Gate.nodeHandle
+  rw [hc, (cache_only_identical env s c pk).2.1 hne hsig]
+
+/-- a shred with a bad signature, or one that merely fails to match the cache without a valid signature, never
+    changes the node's gate (so it cannot flag a correct leader) -/
+theorem node_invalid_ignored (env : Env) (g : Gate) (s : Shred) (pk : Nat)
+    (h : validate env s (g.cached s.header.sliceIdx) pk = .error .invalidSignature) :
+    g.nodeHandle env s pk = g := by
+  unfold Gate.nodeHandle; rw [h]
 
 /-! ### the tag is not bound (defect D15) and non-vacuity -/
 
